@@ -136,6 +136,11 @@ structure Ctx where
   /-- the entity body (only used for `auth-int`) -/
   body : Bytes := []
 
+/-- the algorithm in force: an absent parameter means MD5 (RFC 7616 section 3.3) -/
+def effAlg : Option Bytes → Bytes
+  | some a => a
+  | none => b!"MD5"
+
 def verify (H : Alg → Bytes → Bytes) (algTable : Bytes → Option (Alg × Bool))
     (x : Ctx) (hdr : Bytes) : Bool :=
   match parseCredentials hdr with
@@ -150,9 +155,8 @@ def verify (H : Alg → Bytes → Bytes) (algTable : Bytes → Option (Alg × Bo
       -- opaque is returned unchanged, and only if it was sent
       get ps b!"opaque" == sc.opaq &&
       -- the algorithm is the one of the challenge (absent = MD5)
-      (let eff : Option Bytes → Bytes := fun o => match o with | some a => a | none => b!"MD5"
-       eff (get ps b!"algorithm") == eff sc.algorithm &&
-       match algTable (eff sc.algorithm) with
+      (effAlg (get ps b!"algorithm") == effAlg sc.algorithm &&
+       match algTable (effAlg sc.algorithm) with
        | none => false
        | some (alg, sess) =>
          let h := H alg
